@@ -17,8 +17,8 @@ def random_cases(rng, n_grammars, per_grammar, opts=None, cfgf=None):
     for _ in range(n_grammars):
         g = gg.grammar()
         cfg = cfgf(rng) if cfgf else D.default_cfg(
-            skipws=rng.random() < 0.85, autoinit=rng.random() < 0.7, regroup=rng.random() < 0.3,
-            ws=G.codes(rng.choice(["", "", "", " ", " \n"])))
+            skipws=rng.random() < 0.7, autoinit=rng.random() < 0.6, regroup=rng.random() < 0.4,
+            ws=G.codes(rng.choice(["", "", " ", " \n", "\t "])))
         sg = G.SentenceGen(rng, g)
         has_c = any(r["name"] == "Comment" for r in g["rules"])
         for k in range(per_grammar):
@@ -33,6 +33,7 @@ def random_cases(rng, n_grammars, per_grammar, opts=None, cfgf=None):
 def run(rep):
     rng = random.Random(rep.seed)
     quick = rep.tier == "quick"
+    P.replay_witnesses(rep, PID)
     rep.rule = ("I->S: seeded-random well-formed grammars (1-3 rules, depth <= 3, all operators, assignments, "
                 "predicates, suppression, rule modifiers, Comment rule) with inputs derived from the grammar and "
                 "mutated; the real outcome (accept / model with classes, attribute values, defaults, containment, "
@@ -41,7 +42,8 @@ def run(rep):
     rep.assumptions = ["grammars restricted to Peg!WellFormed (DESIGN.md section 7)",
                        "regexes of the shape pre[set]{min,}post; base types ID INT BOOL STRING; ASCII inputs"]
     # (M) + (S->I): bounded universes, every case replayed
-    for fam, depth in ([("ops", 1), ("kinds", 1)] if quick else [("ops", 2), ("kinds", 2), ("asg", 1), ("mods", 1)]):
+    for fam, depth in ([("ops", 1), ("kinds", 1), ("opts", 1)] if quick else
+                       [("ops", 2), ("kinds", 2), ("asg", 1), ("mods", 1), ("opts", 2)]):
         P.judge_universe(rep, PID, fam, depth)
     rep.exhaustive = True
     ng, per = (100, 8) if quick else (1500, 10)
